@@ -1006,7 +1006,7 @@ async def run_level_d(env, rep, aiocoap):
         v, key = c07_bw.oracle(sc, res)
         if v:
             rep.oracle_fail(case, v, key=key)
-        tl = c07_bw.trace_lines(res)
+        tl = None if sc.get("oracle_only") else c07_bw.trace_lines(res)
         if tl is not None:
             lines.append(tl[0])
             impl.append(tl[1])
